@@ -313,6 +313,10 @@ const HOSTILE_NUMS: &[&str] = &[
 ];
 
 fn curve(rng: &mut Rng, x: i64, y: i64, zoo: bool) -> String {
+    // degenerate but legal (found in ranked maps): the only anchor sits on the slider head, the path has length zero
+    if rng.chance(0.03) {
+        return format!("{}|{x}:{y}", *rng.pick(&["L", "B", "P"]));
+    }
     let types: &[&str] = if zoo {
         &["L", "B", "P", "C", "B", "P", "B3", "Bx", "X", ""]
     } else {
@@ -695,6 +699,13 @@ pub fn generate(rng: &mut Rng, opts: &GenOpts) -> OsuFile {
             Profile::Gaps => {
                 if rng.chance(0.08) {
                     adv += *rng.pick(&[60_000.0, 600_000.0, 3_600_000.0, 7_200_000.0, 20_000_000.0]);
+                    // the object that ends the empty stretch sometimes sits exactly on a strain-section boundary
+                    // (sections are 400 ms, 750 ms for catch, counted from time 0; 300/1500 cover clock rates 0.75/1.5, 2)
+                    if rng.chance(0.5) {
+                        let unit = *rng.pick(&[400.0, 400.0, 750.0, 300.0, 600.0, 200.0, 800.0, 1500.0]);
+                        let target = ((t + adv) / unit).ceil() * unit;
+                        adv = target - t;
+                    }
                 }
             }
             Profile::Limits => {
@@ -1021,7 +1032,7 @@ pub fn mutate_text(rng: &mut Rng, text: &str, n_mut: usize, realistic: bool) -> 
         }
         let ho = lines.iter().position(|l| l.trim() == "[HitObjects]").unwrap_or(0);
         let tp = lines.iter().position(|l| l.trim() == "[TimingPoints]").unwrap_or(0);
-        let choice = if realistic { rng.below(6) } else { rng.below(14) };
+        let choice = if realistic { rng.below(6) } else { rng.below(17) };
         match choice {
             0 => {
                 // delete a line in objects/timing
@@ -1171,6 +1182,44 @@ pub fn mutate_text(rng: &mut Rng, text: &str, n_mut: usize, realistic: bool) -> 
                     let j = rng.usize_below(chars.len());
                     chars[j] = *rng.pick(&[',', ':', '|', '-', '9', 'e', ' ', 'N', '.', '\u{0}', 'é']);
                     lines[i] = chars.into_iter().collect();
+                }
+            }
+            13 => {
+                // move a whole section (header up to the next header) somewhere else: the decoder must not care about
+                // the order in which [General], [Difficulty], [TimingPoints], ... arrive
+                let headers: Vec<usize> = lines.iter().enumerate().filter(|(_, l)| l.trim_start().starts_with('[')).map(|(i, _)| i).collect();
+                if headers.len() >= 2 {
+                    let k = rng.usize_below(headers.len());
+                    let start = headers[k];
+                    let end = headers.get(k + 1).copied().unwrap_or(lines.len());
+                    let block: Vec<String> = lines.drain(start..end).collect();
+                    let rest: Vec<usize> = lines.iter().enumerate().filter(|(_, l)| l.trim_start().starts_with('[')).map(|(i, _)| i).collect();
+                    let at = if rest.is_empty() || rng.chance(0.3) { lines.len() } else { *rng.pick(&rest) };
+                    let at = at.max(usize::from(lines.first().is_some_and(|l| l.starts_with("osu file format"))));
+                    for (o, l) in block.into_iter().enumerate() {
+                        lines.insert((at + o).min(lines.len()), l);
+                    }
+                }
+            }
+            14 | 15 => {
+                // a second, different `key: value` line for a header key, at the end of the file in a repeated section
+                let (section, key, val): (&str, &str, String) = match rng.below(7) {
+                    0 | 1 => ("[General]", "Mode", rng.below(4).to_string()),
+                    2 => ("[Difficulty]", "CircleSize", (*rng.pick(&["0", "18", "10", "1", "0.5", "11", "4.5", "-3", "25"])).to_string()),
+                    3 => ("[Difficulty]", "SliderMultiplier", (*rng.pick(&["0.4", "3.6", "0", "100", "1.4"])).to_string()),
+                    4 => ("[Difficulty]", "SliderTickRate", (*rng.pick(&["0.5", "8", "0", "1", "3"])).to_string()),
+                    5 => ("[Difficulty]", "ApproachRate", (*rng.pick(&["0", "10", "11", "-1", "9.6"])).to_string()),
+                    _ => ("[General]", "StackLeniency", (*rng.pick(&["0", "1", "0.7", "2"])).to_string()),
+                };
+                let sep = if section == "[General]" { ": " } else { ":" };
+                if rng.chance(0.5) {
+                    lines.push(section.to_string());
+                    lines.push(format!("{key}{sep}{val}"));
+                } else {
+                    // or in front of everything else (right after the version line)
+                    let at = usize::from(lines.first().is_some_and(|l| l.starts_with("osu file format")));
+                    lines.insert(at, format!("{key}{sep}{val}"));
+                    lines.insert(at, section.to_string());
                 }
             }
             _ => {
